@@ -44,6 +44,8 @@ struct Property {
   RunResult (*run)(J const &plan) = nullptr;
   // optional: extra shrink candidates for a failing plan
   void (*shrink_more)(J const &plan, std::vector<J> &out) = nullptr;
+  // optional: features of a plan, used for runs that die (a dead worker cannot report its own)
+  std::string (*plan_features)(J const &plan) = nullptr;
   long quick_runs = 400, thorough_runs = 20000;
   double quick_secs = 75, thorough_secs = 900;
   int run_timeout_s = 60;
